@@ -82,5 +82,8 @@ FIXED.append("fixed: property=C02 e573670 Device.udiCarrier.carrierAIDC / carrie
 FIXED.append("fixed: property=C12 e609136 Account.coverage[0] (a nested component) answered is Coverage / is DomainResource with true and is BackboneElement / is Element with false; MarketingStatus, Population, ProdCharacteristic, ProductShelfLife, SubstanceAmount had DomainResource as parent")
 FIXED.append("fixed: property=C12 50e9002 x is Population / ProdCharacteristic / SubstanceAmount did not compile: the three data types were missing from the element registry")
 
+FIXED.append("fixed: property=C18 dd0ccee patch.Insert(nil value) and patch.Replace(nil value) panicked; an integer value for a FHIR integer (sint32) or non-integer element panicked in intValueFromInt (also C01)")
+FIXED.append("fixed: property=C18 2588b76 Add/Replace of an integer element dropped the id and extensions of the supplied value")
+
 if __name__ == '__main__':
     write()
